@@ -32,7 +32,9 @@ def ratios(tier, seed):
     base = [2.0, 1.6, 4.0, 1.5, 3.0, 1.1, 10.0, 1.64, 2.04]
     # full-precision reals (not short decimals): a rule must belong to the ratio it was asked for, to the last bit
     extra = [rnd.uniform(1.05, 10.0) for _ in range(2 if tier == 'quick' else 8)] + [math.sqrt(2.0), math.e] + ([math.pi, (1 + math.sqrt(5.0)) / 2, 10.0 ** (1.0 / 3)] if tier != 'quick' else [])
-    return base + extra
+    # pairs of ratios closer than 1e-7 (in this order): a rule belongs to the ratio it was asked for, not to a neighbour seen before
+    near = [1.6 * (1 + 4e-8), 2.0 * (1 + 3e-8), 3.0 * (1 - 2e-8), 1.5 * (1 + 1e-9)]
+    return base + extra + near
 
 
 def proj_rule(rule_obj):
